@@ -104,12 +104,16 @@ class C14(object):
 
     def gen(self, rs, ctx):
         rnd = random.Random(rs)
-        scen = rnd.choice(["roundtrip", "roundtrip", "sort", "overlaps", "overlaps", "kernel"])
+        scen = rnd.choice(["roundtrip", "roundtrip", "sort", "overlaps", "overlaps", "kernel", "kernel", "pythreads"])
         wide = rnd.random() < (0.03 if ctx.tier == "thorough" else 0.004)
         ns, nf = rnd.choice([1, 2, 3, 5, 8, 13, 24]), rnd.choice([1, 2, 4, 7, 16, 33])
         if wide:
             ns, nf = rnd.choice([(2, 65534), (3, 40000), (65534, 2)])
+        if scen == "pythreads":
+            ns, nf = min(ns, 13), min(nf, 16)
         return {"entry": "sparse/" + scen, "scen": scen, "ns": ns, "nf": nf, "wseed": rnd.getrandbits(48),
+                "strategy": rnd.choice(["random", "random", "pct", "rr", "rtc"]), "p_inv": rnd.choice([1, 2, 4, 16]),
+                "quantum": rnd.choice([1, 2, 5]), "pct_d": rnd.choice([1, 2, 3]), "sseed": rnd.getrandbits(48),
                 "cfg": enginea.draw_cfg(rnd, max_team=16), "gstyle": rnd.choice([0, 1])}
 
     def describe(self, desc):
@@ -255,6 +259,89 @@ class C14(object):
                     nontrivial = len(r) >= 2
                     digs.append(enginea.sha(spf.row, spf.col))
             sts.append(sim.stats())
+        elif scen == "pythreads":
+            # 2-3 Python threads (under the seeded Python scheduler, pre-emption at every source line of sparseframe.py)
+            # convert their own images at the same time; the compiled kernels run on the instrumented module
+            from pysched import pysched
+            nthr = rnd.choice([2, 2, 3])
+            same = rnd.random() < 0.7       # same shape and data type in every thread
+            dt0 = rnd.choice([np.uint16, np.float32])
+            jobs = []
+            for t in range(nthr):
+                a, b = (ns, nf) if (same or t == 0) else (max(1, ns - t), nf + t)
+                dt = dt0 if same else rnd.choice([np.uint16, np.float32])
+                d_t = (g.random((a, b)) * 1000).astype(dt)
+                d_t[g.random((a, b)) < 0.2] = 0
+                m_t = rand_mask(rnd, g, a, b)
+                prog = [rnd.choice(["cut", "cut", "mask", "cut_nomask"]) for _ in range(rnd.randint(1, 3))]
+                cuts = [rnd.choice([0, 1, 500, int(d_t[rnd.randrange(a), rnd.randrange(b)])]) for _ in prog]
+                jobs.append((d_t, m_t, prog, cuts))
+            results = [[] for _ in jobs]
+            sched = pysched.Sched(desc.get("sseed", 1), strategy=desc.get("strategy", "random"), p_inv=desc.get("p_inv", 2),
+                                  quantum=desc.get("quantum", 1), pct_d=desc.get("pct_d", 2), pct_est=60 * nthr, step_cap=400000,
+                                  trace_files=[sf.__file__], replay=desc.get("replay"))
+
+            def worker(t):
+                d_t, m_t, prog, cuts = jobs[t]
+                for op, cut in zip(prog, cuts):
+                    sel = m_t if op == "mask" else (m_t & (d_t > cut) if op == "cut" else d_t > cut)
+                    if not sel.any():
+                        # the library represents an empty frame as None / refuses it: not part of the statement
+                        results[t].append((op, cut, sel, None, None))
+                        continue
+                    if op == "mask":
+                        spf = sf.from_data_mask(m_t, d_t, {"t": t})
+                    elif op == "cut":
+                        spf = sf.from_data_cut(d_t, cut, detectormask=m_t.astype(np.uint8))
+                    else:
+                        spf = sf.from_data_cut(d_t, cut)
+                    dense = None if (spf is None or not sel.any()) else np.array(spf.to_dense("intensity"))
+                    results[t].append((op, cut, sel, None if spf is None else (np.array(spf.row), np.array(spf.col),
+                                                                               np.array(spf.pixels["intensity"])), dense))
+
+            def main():
+                ths = [sched.spawn(lambda t=t: worker(t), "py%d" % t) for t in range(nthr)]
+                for th in ths:
+                    sched.join(th)
+                return ths
+            enginea.apply_cfg(sim, dict(cfg, team=1), strict=0, track_conflicts=0, pct_est=100, step_cap=4000000000)
+            sim.begin_run()
+            ths = []
+            try:
+                with contextlib.redirect_stdout(io.StringIO()):
+                    ths = sched.run(main) or []
+            except pysched.Deadlock as e:
+                viol = V("deadlock", str(e))
+            except pysched.StepCap as e:
+                viol = V("no-progress", str(e))
+            sts.append(sim.stats())
+            for t, th in enumerate(ths):
+                if viol is None and getattr(th, "exc", None) is not None:
+                    if runner.is_harness_exception(th.exc):
+                        raise th.exc
+                    viol = V("raises", "thread %d of %d: %s: %s" % (t, nthr, type(th.exc).__name__, th.exc))
+            for t in range(nthr):
+                if viol is not None:
+                    break
+                d_t = jobs[t][0]
+                if len(results[t]) != len(jobs[t][2]):
+                    viol = V("thread-incomplete", "thread %d finished %d of %d conversions" % (t, len(results[t]), len(jobs[t][2])))
+                    break
+                for op, cut, sel, got, dense in results[t]:
+                    r, c = np.nonzero(sel)
+                    if got is None:
+                        if len(r):
+                            viol = V("wrong-pixels", "%d Python threads: %s in thread %d returned nothing for %d selected pixels" % (nthr, op, t, len(r)))
+                        continue
+                    if len(got[0]) != len(r) or (got[0] != r).any() or (got[1] != c).any() or (got[2] != d_t[sel]).any() or \
+                            (dense is not None and (dense != np.where(sel, d_t, 0)).any()):
+                        viol = V("not-reentrant", "%d Python threads convert their own images at the same time (%s): thread %d's %s "
+                                                  "frame is not its selected pixels (%d selected, %d returned)" %
+                                 (nthr, "same shape and type" if same else "different shapes", t, op, len(r), len(got[0])))
+                        break
+            nontrivial = True
+            digs.append(enginea.sha(sched.digest(), [[(x[3][0], x[3][1]) if x[3] else None for x in rs] for rs in results]))
+            meas_py = {"py_steps": sched.steps, "py_switches": sched.switches, "py_threads": nthr}
         elif scen == "kernel":
             # strict kernel calls under team schedules
             m = rand_mask(rnd, g, ns, nf)
@@ -275,6 +362,15 @@ class C14(object):
             else:
                 img = g.integers(0, 2 ** (16 if kind == "u16" else 32) - 1, (ns, nf)).astype(np.uint16 if kind == "u16" else np.uint32)
             cut = rnd.choice([0, 1, 500, 40000])
+            if kind == "u32" and rnd.random() < 0.4:
+                # counts beyond 2^24 (not every integer is a float32 there) and a cut that float32 holds exactly, just below
+                # or at some of them
+                v0 = int(g.integers(2 ** 24 + 2, 2 ** 31 - 200))
+                cut = int(np.float32(v0))
+                if cut >= 2 ** 31:
+                    cut = 2 ** 30
+                for dv in (1, 2, 3, 64, 127, 129, -1, 0):
+                    img[rnd.randrange(ns), rnd.randrange(nf)] = cut + dv
             mk = m.astype(np.uint8) * rnd.choice([1, 255, 2, 4])
             vals = {"img": img, "msk": mk, "row": [ns, nf], "col": [ns, nf], "val": [ns, nf],
                     "cut": cut if kind == "u16" else float(cut), "ns": ns, "nf": nf}
@@ -382,6 +478,8 @@ class C14(object):
                 for k in ("steps", "switches", "teams", "conflicts", "parallel_runs"):
                     meas[k] += mm[k]
         meas["scenario"] = {scen: 1}
+        if scen == "pythreads":
+            meas.update(meas_py)
         meas["concurrent_tosparse_pairs"] = conc_pairs
         meas["data/mask layout"] = layouts
         if scen == "overlaps":
